@@ -24,6 +24,16 @@ Tight(l0, gs) ==
    min |-> [k \in DOMAIN ds |-> SetMin(UNION {Vals(gs[i], ds[k]) : i \in DOMAIN gs})],
    max |-> [k \in DOMAIN ds |-> SetMax(UNION {Vals(gs[i], ds[k]) : i \in DOMAIN gs})]]
 IsEmptyBox(b) == b.l = "No" \/ \E k \in DOMAIN b.min : b.max[k] < b.min[k]
+\* ---- what the statement fixes about a box fed with the bag of leaves gs (order-free by construction: sets and unions).
+\* DVals: every ordinate of the dimension NAMED d; CoordDims: the dimensions in which at least one coordinate exists (leaves
+\* without coordinates contribute nothing); HiDims: the dimensions of the join over the initial layout and ALL leaves.
+AllDims == {"x", "y", "z", "m"}
+DVals(gs, d) == UNION {Vals(gs[i], d) : i \in DOMAIN gs}
+CoordDims(gs) == {d \in AllDims : DVals(gs, d) # {}}
+HiDims(l0, gs) == DimSet(JoinAll(l0, [i \in DOMAIN gs |-> gs[i].l]))
+\* a box [l, min, max] with every dimension inverted (nothing in it at all) / with no dimension inverted
+AllInverted(b) == b.l = "No" \/ \A k \in DOMAIN b.min : b.max[k] < b.min[k]
+NoneInverted(b) == b.l # "No" /\ \A k \in DOMAIN b.min : b.min[k] <= b.max[k]
 \* Bounds.Polygon: the corners of the XY rectangle of a box (a set: a degenerate box has fewer than four)
 Corners(b) == {<<b.min[1], b.min[2]>>, <<b.min[1], b.max[2]>>, <<b.max[1], b.min[2]>>, <<b.max[1], b.max[2]>>}
 \* GeoJSON bounding box (RFC 7946 section 5) over the first n dimensions of a box: all minima, then all maxima
